@@ -3,6 +3,7 @@
 package verifsim
 
 import (
+	"sort"
 	"fmt"
 	"strings"
 		"time"
@@ -522,10 +523,22 @@ type c10sop struct {
 // c10storeExec runs a history on a fresh disk with storage operation failAt (-1: none) failing once.
 // The caller reacts to an error the way the node does: save what it has and try the step again.
 // Returns the model, the repository, the disk and the number of storage operations used.
+// c10storeExecWith runs the history fault-free with an observer on every storage operation.
+func c10storeExecWith(hist []c10sop, removeMissingErr bool, salt0 int, observe func(n int, kind, key string) error) {
+	c10storeExecObs(hist, removeMissingErr, -1, salt0, observe)
+}
+
 func c10storeExec(hist []c10sop, removeMissingErr bool, failAt int, salt0 int) (*c09model, *c09sut, *SimDisk, string, string) {
+	return c10storeExecObs(hist, removeMissingErr, failAt, salt0, nil)
+}
+
+func c10storeExecObs(hist []c10sop, removeMissingErr bool, failAt int, salt0 int, observe func(n int, kind, key string) error) (*c09model, *c09sut, *SimDisk, string, string) {
 	disk := NewSimDisk()
 	disk.RemoveMissingErr = removeMissingErr
 	failedOp := ""
+	if observe != nil {
+		disk.FailOp = observe
+	}
 	if failAt >= 0 {
 		disk.FailOp = func(n int, kind, key string) error {
 			if n == failAt {
@@ -544,10 +557,16 @@ func c10storeExec(hist []c10sop, removeMissingErr bool, failAt int, salt0 int) (
 	g := mainNetGenesisHeader()
 	m := &c09model{hs: []wire.BlockHeader{g}, hashes: []bitcoin.Hash32{*g.BlockHash()}}
 	salt := salt0
+	changed := ""
 	retry := func(f func() error) error {
 		err := f()
 		if err == nil {
 			return nil
+		}
+		// a step that failed must not have changed any answer
+		disk.FailOp = nil
+		if why := c10storeSame(s.repo, m); why != "" && changed == "" {
+			changed = why
 		}
 		s.repo.Save(s.ctx) // what Node.Run does on its way to a reconnect
 		return f()
@@ -598,6 +617,9 @@ func c10storeExec(hist []c10sop, removeMissingErr bool, failAt int, salt0 int) (
 		}
 	}
 	disk.FailOp = nil
+	if changed != "" {
+		return m, s, disk, failedOp, "CHANGED:" + changed
+	}
 	if err := s.repo.Save(s.ctx); err != nil {
 		return m, s, disk, failedOp, "final save: " + err.Error()
 	}
@@ -686,17 +708,42 @@ func runC10storeFail(c *Ctx) {
 			return
 		}
 		nOps := d0.OpCount
-		// every position (thorough) or up to 24 evenly spread ones plus the last few (quick)
+		// failure positions: every write and remove (a revert reads one file per removed height,
+		// so reads dominate the count) plus evenly spread reads
 		var js []int
-		step := 1
-		if c.Tier != "thorough" && nOps > 24 {
-			step = nOps/24 + 1
-		} else if nOps > 80 {
-			step = nOps/80 + 1
+		{
+			var kinds []string
+			probe := func(n int, kind, key string) error {
+				for len(kinds) <= n {
+					kinds = append(kinds, "")
+				}
+				kinds[n] = kind
+				return nil
+			}
+			c10storeExecWith(hist, rme, salt0, probe)
+			maxMut, reads := 40, 12
+			if c.Tier == "thorough" {
+				maxMut, reads = 120, 30
+			}
+			var muts, rds []int
+			for j, k := range kinds {
+				if k == "write" || k == "remove" {
+					muts = append(muts, j)
+				} else {
+					rds = append(rds, j)
+				}
+			}
+			for len(muts) > maxMut { // keep the first and the last ones, thin out the middle
+				muts = append(muts[:maxMut/2], muts[len(muts)-maxMut/2:]...)
+			}
+			js = append(js, muts...)
+			step := len(rds)/reads + 1
+			for i := 0; i < len(rds); i += step {
+				js = append(js, rds[i])
+			}
+			sort.Ints(js)
 		}
-		for j := 0; j < nOps; j += step {
-			js = append(js, j)
-		}
+		_ = nOps
 		for _, j := range js {
 			m, s, disk, failed, problem := c10storeExec(hist, rme, j, salt0)
 			c.NoteCase(true, fmt.Sprintf("%s!%d", desc.String(), j))
@@ -705,6 +752,10 @@ func runC10storeFail(c *Ctx) {
 			}
 			c.FaultFired("F-disk-err")
 			c.Probe("store_single_failure_checked")
+			if strings.HasPrefix(problem, "CHANGED:") {
+				c.Violate("failed-op-changed-answers", "store/op="+failed, "storage operation #%d (%s) failed and the step returned an error, but the repository no longer answers as before the step: %s; history: %s", j, failed, problem[8:], desc.String())
+				return
+			}
 			if problem != "" {
 				c.Violate("error-not-recovered", "store/op="+failed, "storage operation #%d (%s) fails once and the step is tried again after a save: %s; history: %s", j, failed, problem, desc.String())
 				return
